@@ -66,6 +66,42 @@ static void print_token_trunc(const char *str, size_t max_len)
 	}
 }
 
+/* Read one line of any length, without the newline. Returns NULL at EOF. */
+static char *read_line(FILE *fp)
+{
+	size_t cap = BUFSIZ, len = 0;
+	char *buf = malloc(cap);
+
+	if (buf == NULL)
+		return NULL;
+
+	while (fgets(buf + len, cap - len, fp) != NULL) {
+		len += strlen(buf + len);
+
+		if (len && buf[len - 1] == '\n') {
+			buf[len - 1] = '\0';
+			return buf;
+		}
+
+		if (cap - len < 2) {
+			char *tmp = realloc(buf, cap * 2);
+
+			if (tmp == NULL) {
+				free(buf);
+				return NULL;
+			}
+			buf = tmp;
+			cap *= 2;
+		}
+	}
+
+	if (len)
+		return buf;
+
+	free(buf);
+	return NULL;
+}
+
 static int process_one(jwt_checker_t *checker, jwt_alg_t alg, const char *token,
 		       int quiet)
 {
@@ -242,11 +278,10 @@ int main(int argc, char *argv[])
 	err = 0;
 
 	if (!strcmp(argv[0], "-")) {
-		char token[BUFSIZ];
-		while (fgets(token, sizeof(token), stdin) != NULL) {
-			token[strcspn(token, "\n")] = '\0';
-
+		char *token;
+		while ((token = read_line(stdin)) != NULL) {
 			err += process_one(checker, alg, token, quiet);
+			free(token);
 		}
 	} else {
 		for (oc = 0; oc < argc; oc++) {
